@@ -353,6 +353,11 @@ class Documentable:
                         if p in base._localNameToFullName_map:
                             full_name = base._localNameToFullName_map[p]
                             break
+                        if base._mro is None and None in base.baseobjects:
+                            # While the modules are visited a base that is not resolved yet is
+                            # missing from the linearisation: what comes after this class cannot
+                            # be told. The name stays as written, it is looked up again when used.
+                            break
                 if full_name == p:
                     # We don't have a full name
                     # TODO: Instead of returning the input, _localNameToFullName()
